@@ -86,6 +86,18 @@ DETECTED = {
     'C15-f': ['C15: H15d (added after the miss)'],
     'C17-f': ['C17: H17 / H17h documented-fault-for-bad-parameter'],
     'C19-f': ['C19: H19a-full prediction-changes-nothing with stored extra arguments (added after the miss)'],
+    'C02-g': ['C02: H02a invariant-I1-local-master-is-seen-running with the step peer_failure (added after the miss)'],
+    'C05-g': ['C05: H05-2 / H05-states stops-where-the-strategy-says (INFANTICIDE, equal uptimes)'],
+    'C07-g': ['C07: H07b rpc-failure-means-failed-at-once with the real proxy handle_exception (added after the miss)'],
+    'C10-g': ['C10: H10 job-abandoned-when-target-lost with auto_fence (added after the miss)'],
+    'C11-g': ['C11: H11 op:snapshot:listing / state with a rebooted sender (added after the miss)'],
+    'C13-g': ['C13: H13b peer-that-isolated-us-is-isolated / inconsistent-peer-is-isolated with a Master in a closing '
+              'state (added after the miss)'],
+    'C15-g': ['C15: H15c exception:IndexError'],
+    'C17-g': ['C17: H17 refused-while-jobs-in-progress-elsewhere (added after the miss)'],
+    'C18-g': ['C18: H18e out-of-range-value-falls-back-to-default (NaN)'],
+    'C20-g': ['C20: H20c running-process-still-collected / stop-reported-to-the-compiler with other collected '
+              'processes (added after the miss)'],
 }
 for line in open(sys.argv[1]):
     m = re.match(r'(C\d\d-\w): without=\[(.*?)\] with=\[(.*?)\] suite=\[(.*)\]', line.strip())
